@@ -94,13 +94,13 @@ type c03Kit struct {
 	epochs []uint64 // epoch starts seen (ascending)
 	sess   uint64
 
-	checkC03  bool // evaluate the C03 oracles (only in C03 runs; the ledger is kept in every run)
-	wantDig   bool // C05: digest around every relay-payment transaction
-	preHooks  []func(tx *c03TxInfo, q sdk.Context)
-	postHooks []func(tx *c03TxInfo)
-	strangers []*Account // keys that never belong to any project
-	badgeUsers []*Account
-	badges    []*c18Badge
+	checkC03     bool // evaluate the C03 oracles (only in C03 runs; the ledger is kept in every run)
+	wantDig      bool // C05: digest around every relay-payment transaction
+	preHooks     []func(tx *c03TxInfo, q sdk.Context)
+	postHooks    []func(tx *c03TxInfo)
+	strangers    []*Account // keys that never belong to any project
+	badgeUsers   []*Account
+	badges       []*c18Badge
 	disabledDevs map[*ConsumerActor]*Account // developer keys reserved for disabled projects (C05)
 }
 
@@ -1021,7 +1021,7 @@ func init() {
 	AddOp("c03params", (*Sim).opC03Params)
 	simrt.Register("C03", &simrt.PropSpec{Fn: runC03, NonTrivial: c03NonTrivial,
 		Rule: "tape-generated multi-actor histories (stake/freeze/unstake, subscriptions, projects, keys, policies, delegations) in which every MsgRelayPayment is built by the harness: honest claims (single, batches, kept and claimed in later blocks/epochs, claims for past epochs) and dishonest ones (same proof twice in one tx, again in the same block, in later blocks and epochs, re-signed with higher/lower CuSum, same session id signed by another key of the same/another project, good relays inside a tx that aborts and claimed again afterwards, kept+fresh mixes), mixed with badge relays (several per tx, overuse attempts, forged badges), with multi-epoch block progress and governance changes of EpochsToSave/EpochBlocks while proofs are pending, and (fault, tape-chosen rate per run, at block boundaries) crash/restart of x/pairing from its own exported genesis (ExportGenesis -> JSON -> store emptied -> InitGenesis) after which kept and paid proofs keep coming back; the restart must leave the paid-session markers and the ProviderEpochCu / ProviderConsumerEpochCu counters byte-identical and re-export the same markers. Ledger = accepted (epochStart, provider, project, chain, session) as resolved by the chain's own project/epoch queries on the pre-state. Non-trivial = >=2 paid relay txs, >=2 fired duplicate/abort/param faults, >=10 accepted ops; distinct = (op,outcome,fault) sequence hash",
-		Real:    chainReal, Stubbed: chainStub, Assume: append([]string{"a MsgRelayPayment is rejected as a whole when any of its relays is rejected (current handler behaviour: rejectedRelaysNum != 0), so every relay of an accepted transaction is a paid relay", "a restart from exported genesis is modelled for the pairing module only (the other modules keep their stores) and at the start of a block (after BeginBlock, before any transaction; the per-block pairing relay cache is empty there); bookkeeping keys that timer/fixation stores create lazily may appear in the rebuilt store and are not judged"}, chainAssume...)})
+		Real: chainReal, Stubbed: chainStub, Assume: append([]string{"a MsgRelayPayment is rejected as a whole when any of its relays is rejected (current handler behaviour: rejectedRelaysNum != 0), so every relay of an accepted transaction is a paid relay", "a restart from exported genesis is modelled for the pairing module only (the other modules keep their stores) and at the start of a block (after BeginBlock, before any transaction; the per-block pairing relay cache is empty there); bookkeeping keys that timer/fixation stores create lazily may appear in the rebuilt store and are not judged"}, chainAssume...)})
 }
 
 var _ = sort.Strings
